@@ -414,7 +414,7 @@ def do_check(prop, tier, count=None, jobs=None, seed=None, minimise_budget=45.0,
                 "simulated_runs": total_eval,
                 "runs_per_hour": int(total_eval / max(wall, 1e-3) * 3600),
                 "seeds_per_hour": int(total_eval / max(wall, 1e-3) * 3600),
-                "simulated_seconds_covered": stats.get("sim_seconds", 0),
+                "simulated_seconds_covered": int(stats.get("sim_seconds", 0)),
                 "operations_executed": stats.get("ops", 0),
                 "map_calls_intercepted": stats.get("map_calls", 0),
                 "faults_fired": fired,
